@@ -82,7 +82,11 @@ func compObjs(
 		return object.BuiltInFalse
 	}
 
-	for sym, pair1 := range *o1.Pairs {
+	// NOTE: follow Keys/PrivateKeys order (iteration order of map is random and
+	// `==` of elements may have side effects)
+	syms := append(append([]object.SymHash{}, *o1.Keys...), *o1.PrivateKeys...)
+	for _, sym := range syms {
+		pair1 := (*o1.Pairs)[sym]
 		pair2, ok := (*o2.Pairs)[sym]
 		if !ok {
 			return object.BuiltInFalse
